@@ -5,6 +5,7 @@ message and sender to Receive (C04/C13 process model, stream "proc").
 -/
 import HW.Proofs.Inbox
 import HW.Props.C14
+import HW.Proofs.ProcReplay
 namespace HW.C01
 open HW.Inbox
 
@@ -37,6 +38,45 @@ theorem sender_program_order (B : Nat) (senders : List (List Msg)) (nStop : Nat)
 theorem ring_is_fifo (size : Nat) (h : 1 ≤ size) (ops : List (RingOp Nat)) :
     (Ring.new size : Ring Nat).run ops = Fifo.run [] ops :=
   C14.refines_fifo size h ops
+
+/-- the envelope of inbox message `m`: a user message with payload `m` and the sender the caller attached
+    (`snd m`; `none` = no sender). The inbox model moves opaque naturals, the process model envelopes. -/
+def envOf (snd : Msg → Option Nat) (m : Msg) : Proc.Msg := .user m (snd m)
+
+theorem usersOf_map_envOf (snd : Msg → Option Nat) (l : List Msg) :
+    Proc.usersOf (l.map (envOf snd)) = l.map (fun m => (m, snd m)) := by
+  induction l with
+  | nil => rfl
+  | cons m l ih => simp [envOf, Proc.usersOf, ih] at *
+
+/-- END TO END (composition of the inbox protocol, this file, with the process model, C05): take any
+    number of senders, any interleaving, any batch size; once the senders have fallen silent and the
+    actor was never stopped, split what the inbox handed to `Invoke` into batches in ANY way, let the
+    receiver panic wherever the script says (restarts, replay) — if the actor is alive at the end, then
+    what its `Receive` saw, over all incarnations, is exactly the sequence of accepted messages: each once,
+    in acceptance order, unmodified, each with its own sender. -/
+theorem end_to_end (B : Nat) (hB : 1 ≤ B) (senders : List (List Msg)) (nStop : Nat) (s : St)
+    (hr : Reachable B senders nStop s) (hq : quiescent s = true) (hn : s.everStopped = false)
+    (snd : Msg → Option Nat) (batches : List (List Proc.Msg))
+    (hsplit : batches.flatten = s.delivered.map (envOf snd)) (hne : ∀ b ∈ batches, b ≠ [])
+    (max mw : Nat) (script : List Proc.Outcome)
+    (halive : (Proc.runHistory max mw script batches).1.stopped = false) :
+    Proc.userRecvs (Proc.runHistory max mw script batches).1.trace
+      = (s.pushed.map (·.2)).map (fun m => (m, snd m)) := by
+  rw [Proc.replay_complete max mw script batches hne (Proc.fuel_sufficient max mw script batches) halive]
+  unfold Proc.allUsers
+  rw [hsplit, usersOf_map_envOf, exactly_once_in_order B hB senders nStop s hr hq hn]
+
+/-- non-vacuity of `end_to_end`: the schedule of the example below, its three deliveries split into two
+    batches, a panic on the second message (one restart): Receive saw 1, 3, 2 with their senders. -/
+example :
+    let s := runSched 1 (init [[1, 2], [3]] 0) [0, 0, 0, 1, 0, 2, 1, 1, 1, 2, 3, 3, 3, 3, 3, 3, 3, 3, 3, 3, 3, 3, 3]
+    let snd : Msg → Option Nat := fun m => if m = 3 then some 7 else none
+    let batches : List (List Proc.Msg) := [[envOf snd 1, envOf snd 3], [envOf snd 2]]
+    batches.flatten = s.delivered.map (envOf snd) ∧
+    (Proc.runHistory 2 0 [.ok, .ok, .ok, .panic] batches).1.stopped = false ∧
+    Proc.userRecvs (Proc.runHistory 2 0 [.ok, .ok, .ok, .panic] batches).1.trace = [(1, none), (3, some 7), (2, none)] := by
+  decide +kernel
 
 /-- non-vacuity: two senders, batch size 1, a quiescent end state with everything delivered. -/
 example :
